@@ -2126,12 +2126,14 @@ func parseForeignContent(p *parser) bool {
 			p.acknowledgeSelfClosingTag()
 		}
 	case EndTagToken:
-		if strings.EqualFold(p.oe[len(p.oe)-1].Data, p.tok.Data) {
+		// The root html element (the bottom of the stack, which is the
+		// current node only in the fragment case) is never popped.
+		if len(p.oe) > 1 && strings.EqualFold(p.oe[len(p.oe)-1].Data, p.tok.Data) {
 			p.oe = p.oe[:len(p.oe)-1]
 			return true
 		}
 		for i := len(p.oe) - 1; i >= 0; i-- {
-			if strings.EqualFold(p.oe[i].Data, p.tok.Data) {
+			if i > 0 && strings.EqualFold(p.oe[i].Data, p.tok.Data) {
 				p.oe = p.oe[:i]
 				return true
 			}
